@@ -18,6 +18,9 @@ type Graph struct {
 	C          *cfg.CFG
 	caseSwitch map[*ast.CaseClause]*ast.SwitchStmt
 	condOf     map[*cfg.Block]ast.Expr // synthesised condition for 2-way blocks
+	formOf     map[*cfg.Block]*bform
+	flagInf    *flagInfo
+	flagsDone  bool
 }
 
 // Point is the position just before node I of block B (I == len(B.Nodes): end of block).
@@ -218,17 +221,23 @@ type Atom struct {
 // AtomEdges returns all edges of g on which atom has value want.
 func (g *Graph) AtomEdges(a Atom, want bool) []Edge {
 	var out []Edge
+	lit := []AtomWant{{a, want}}
 	for _, b := range g.C.Blocks {
 		if !b.Live || g.condOf[b] == nil {
 			continue
 		}
 		for s := 0; s < 2; s++ {
 			e := Edge{b, s}
+			hit := false
 			for _, f := range g.EdgeFacts(e) {
 				if ok, sense := a.Match(g, f.E); ok && (f.Truth == sense) == want {
-					out = append(out, e)
+					hit = true
 					break
 				}
+			}
+			// or the edge's condition entails the literal (boolean locals unfolded, any nesting)
+			if hit || g.edgeEntails(e, lit) {
+				out = append(out, e)
 			}
 		}
 	}
@@ -240,18 +249,23 @@ type cutSet map[Edge]bool
 // reach computes reachability from 'from' to 'to' with edges in cut removed and
 // nodes for which stop returns true acting as barriers.
 func (g *Graph) reach(from, to Point, cut cutSet, stop func(ast.Node) bool) bool {
+	fi := g.flags()
 	type key struct {
-		b *cfg.Block
+		b   *cfg.Block
+		env string
 	}
-	seen := map[*cfg.Block]bool{}
-	var walk func(b *cfg.Block, start int) bool
-	walk = func(b *cfg.Block, start int) bool {
+	seen := map[key]bool{}
+	var walk func(b *cfg.Block, start int, env flagEnv) bool
+	walk = func(b *cfg.Block, start int, env flagEnv) bool {
 		for i := start; i < len(b.Nodes); i++ {
 			if b == to.B && i == to.I {
 				return true
 			}
 			if stop != nil && stop(b.Nodes[i]) {
 				return false
+			}
+			if fi != nil {
+				env = fi.apply(env, b.Nodes[i])
 			}
 		}
 		if b == to.B && to.I >= len(b.Nodes) && start <= to.I {
@@ -261,17 +275,28 @@ func (g *Graph) reach(from, to Point, cut cutSet, stop func(ast.Node) bool) bool
 			if cut[Edge{b, si}] {
 				continue
 			}
-			if seen[s] {
+			if fi != nil && !g.feasible(fi, b, si, env) {
 				continue
 			}
-			seen[s] = true
-			if walk(s, 0) {
+			k := key{s, ""}
+			if fi != nil {
+				k.env = env.key()
+			}
+			if seen[k] {
+				continue
+			}
+			seen[k] = true
+			if walk(s, 0, env) {
 				return true
 			}
 		}
 		return false
 	}
-	return walk(from.B, from.I)
+	var env flagEnv
+	if fi != nil {
+		env = make(flagEnv, len(fi.idx))
+	}
+	return walk(from.B, from.I, env)
 }
 
 // Dominated: every path entry->target takes at least one edge of edges.
@@ -328,13 +353,21 @@ type PassOpts struct {
 // block) passes a node satisfying pred. Returns false plus the block where a
 // violating path ends.
 func (g *Graph) MustPass(from Point, o PassOpts, pred func(ast.Node) bool) (bool, *cfg.Block) {
-	seen := map[*cfg.Block]bool{}
+	fi := g.flags()
+	type key struct {
+		b   *cfg.Block
+		env string
+	}
+	seen := map[key]bool{}
 	var bad *cfg.Block
-	var walk func(b *cfg.Block, start int) bool
-	walk = func(b *cfg.Block, start int) bool {
+	var walk func(b *cfg.Block, start int, env flagEnv) bool
+	walk = func(b *cfg.Block, start int, env flagEnv) bool {
 		for i := start; i < len(b.Nodes); i++ {
 			if pred(b.Nodes[i]) {
 				return true
+			}
+			if fi != nil {
+				env = fi.apply(env, b.Nodes[i])
 			}
 		}
 		if len(b.Succs) == 0 {
@@ -351,21 +384,32 @@ func (g *Graph) MustPass(from Point, o PassOpts, pred func(ast.Node) bool) (bool
 			if o.Cut[Edge{b, si}] {
 				continue
 			}
+			if fi != nil && !g.feasible(fi, b, si, env) {
+				continue
+			}
 			if o.Until[s] {
 				bad = s
 				return false
 			}
-			if seen[s] {
+			k := key{s, ""}
+			if fi != nil {
+				k.env = env.key()
+			}
+			if seen[k] {
 				continue
 			}
-			seen[s] = true
-			if !walk(s, 0) {
+			seen[k] = true
+			if !walk(s, 0, env) {
 				return false
 			}
 		}
 		return true
 	}
-	ok := walk(from.B, from.I)
+	var env flagEnv
+	if fi != nil {
+		env = make(flagEnv, len(fi.idx))
+	}
+	ok := walk(from.B, from.I, env)
 	return ok, bad
 }
 
@@ -423,6 +467,17 @@ func LoopHasEarlyExit(s ast.Stmt) (bool, ast.Node) {
 	default:
 		return false, nil
 	}
+	// labels of statements inside the body: a labelled break/continue/goto to one of them stays inside the loop
+	inner := map[string]bool{}
+	ast.Inspect(body, func(n ast.Node) bool {
+		if _, ok := n.(*ast.FuncLit); ok {
+			return false
+		}
+		if ls, ok := n.(*ast.LabeledStmt); ok {
+			inner[ls.Label.Name] = true
+		}
+		return true
+	})
 	var found ast.Node
 	var walk func(n ast.Node, depth int, inSwitchOrSelect int)
 	walk = func(n ast.Node, depth int, brk int) {
@@ -438,16 +493,21 @@ func LoopHasEarlyExit(s ast.Stmt) (bool, ast.Node) {
 		case *ast.BranchStmt:
 			switch x.Tok {
 			case token.GOTO:
-				found = x
+				if x.Label == nil || !inner[x.Label.Name] {
+					found = x
+				}
 			case token.BREAK:
 				if x.Label != nil {
-					found = x // conservatively: labelled break leaves something
+					if !inner[x.Label.Name] {
+						found = x // leaves a statement that is not inside this loop's body: the loop itself or an outer one
+					}
 				} else if depth == 0 && brk == 0 {
 					found = x
 				}
 			case token.CONTINUE:
-				if x.Label != nil && depth >= 0 {
-					// labelled continue of an outer loop leaves this loop
+				if x.Label != nil && !inner[x.Label.Name] {
+					// labelled continue of this or an outer loop: only an outer loop's label leaves this loop,
+					// but the label of this loop itself is not in inner either; treat conservatively
 					found = x
 				}
 			}
